@@ -50,6 +50,8 @@ for _p in ("C09", "C04", "C06", "C01"):
 # the state census: no package-level variable, no member of a stateful type beyond what the models keep
 for _p in ("C11", "C12", "C13", "C14", "C17", "C20", "C05", "C16", "C19", "C06", "C07", "C08", "C15", "C01", "C02", "C03", "C04", "C09", "C10", "C18"):
     PROPS[_p]["modules"] += ["IclModel.Props.StateCensus"]
+# the writer is an observer: its walk and its line writer, translated, mutate nothing (the translation has no assignment to the file)
+PROPS["C17"]["modules"] += ["IclModel.Props.C01Walk", "IclModel.Props.C02WriteLine"]
 # Reader.parseLine and its handlers translated from reader.go = the step of the reader model
 for _p in ("C04", "C18", "C03", "C05"):
     PROPS[_p]["modules"] += ["IclModel.Props.C04Reader"]
